@@ -258,6 +258,8 @@ def render(atoms, env, fills):
                 return None
             out.append(LOCALES[loc])
         else:
+            if i >= len(fills):
+                return None
             out.append(fills[i])
             i += 1
     return "".join(out)
@@ -337,7 +339,7 @@ def gen_side(rng, wild, names, stars_per_seg=1, lead_var=0.5):
             segs.append([("L", rand_lit(rng))])
         else:
             segs.append(var_segment(rng, names, False))
-        if len(segs) > 9:
+        if len(segs) > 9 and not todo:
             break
     # a pattern must not end in a `**/` segment: give it a file part
     if not segs or segs[-1][0][0] == "SS":
@@ -402,7 +404,43 @@ def break_path(rng, path):
     return k
 
 
-def in_grammar(atoms, env):
+_VAR = re.compile(r"{ *(\w+) *}")
+
+
+def group_names(atoms, env):
+    """names of the capture groups the pattern's regular expression would define
+    (a variable's value contributes the variables it mentions, once per value)"""
+    values = dict(env.pairs)
+
+    def nested(name, seen):
+        out = [name]
+        if name in values and name not in seen:
+            inner = []
+            for m in _VAR.finditer(values[name]):
+                if m.group(1) not in inner:
+                    inner.append(m.group(1))
+            for n in inner:
+                out += nested(n, seen | {name})
+        return out
+    names, top = [], set()
+    for a in atoms:
+        if a[0] == "V" and a[1] not in top:
+            top.add(a[1])
+            names += nested(a[1], set())
+        elif a[0] == "A" and "android_locale" not in top:
+            top.add("android_locale")
+            names.append("android_locale")
+    return names
+
+
+def reuses_nested_variable(atoms, env):
+    """a variable used in the pattern and again inside another variable's value:
+    the implementation then defines the same group name twice (re.error)"""
+    g = group_names(atoms, env)
+    return len(g) != len(set(g))
+
+
+def in_grammar(atoms, env, max_ss=1):
     """the grammar of the property: literal segments, at most one star per
     segment with literal affixes, at most one `**`, variables bound to
     wildcard-free values"""
@@ -418,8 +456,10 @@ def in_grammar(atoms, env):
         elif a[0] == "SS":
             nss += 1
             stars_in_seg = 0
-            if nss > 1:
+            if nss > max_ss:
                 return False
+        elif a[0] == "V" and reuses_nested_variable(atoms, env):
+            return False
         elif a[0] == "V":
             if env.resolved.get(a[1]) is None:
                 return False
@@ -475,7 +515,8 @@ def gen_case(rng, two_starstar=False, loose=False):
     c.b = (atoms_text(c.atoms_b), list(c.envb.pairs), rootb)
     c.wild = [x for x in c.atoms_a if x[0] in ("S", "SS")]
     c.same_wild = [x for x in c.atoms_b if x[0] in ("S", "SS")] == c.wild
-    c.grammar = (in_grammar(c.atoms_a, c.enva) and in_grammar(c.atoms_b, c.envb) and c.same_wild
+    mss = 2 if two_starstar else 1
+    c.grammar = (in_grammar(c.atoms_a, c.enva, mss) and in_grammar(c.atoms_b, c.envb, mss) and c.same_wild
                  and not star_adjacent_to_variable(c.atoms_a)
                  and not star_adjacent_to_variable(c.atoms_b)
                  and not any(n in c.enva.resolved or n in c.envb.resolved
@@ -483,6 +524,7 @@ def gen_case(rng, two_starstar=False, loose=False):
     # a rooted pattern whose first node is a wildcard raises KeyError in the root test
     if (roota and c.atoms_a[0][0] in ("S", "SS")) or (rootb and c.atoms_b[0][0] in ("S", "SS")):
         c.grammar = False
+    c.grammar_but_two = c.grammar
     if two_starstar:
         c.grammar = False
         c.a, c.b = (c.a[0], c.a[1], None), (c.b[0], c.b[1], None)
